@@ -205,7 +205,8 @@ func (it *mapIterator) NextInt(useNative bool) (keyStart int, keyInt int, start 
 	switch it.kt {
 	case thrift.I08:
 		n, err := it.p.ReadByte()
-		keyInt = int(n)
+		// a thrift byte is signed, like the other widths
+		keyInt = int(int8(n))
 		if err != nil {
 			it.Err = meta.NewError(meta.ErrRead, "", err)
 			return
